@@ -209,14 +209,9 @@ impl MzMLReader {
                             PROFILE => spectrum.representation = Representation::Profile,
                             CENTROID => spectrum.representation = Representation::Centroid,
                             TOTAL_ION_CURRENT => {
-                                let value = extract_value!(ev);
-                                if value == 0.0 {
-                                    // No ion current, break out of current state
-                                    spectrum = RawSpectrum::default_with_file_id(self.file_id);
-                                    state = None;
-                                } else {
-                                    spectrum.total_ion_current = value;
-                                }
+                                // a spectrum without ion current is still a spectrum: it is returned as
+                                // encoded (id, level, scan time, usually empty arrays), not as a blank one
+                                spectrum.total_ion_current = extract_value!(ev);
                             }
                             _ => {}
                         }
